@@ -96,6 +96,181 @@ def normalizeHeaderKey : Bytes → Bytes
                        else if x == 45 then x :: go xs true else lowerByte x :: go xs false
     upperByte c :: go cs false
 
+/-! ### header lines on the wire (fasthttp header.go: `appendHeaderLine` / `headerScanner.next` /
+    `RequestHeader.parseHeaders`) -/
+
+/-- `appendHeaderLine`: `key ": " value CRLF` -/
+def writeHeaderLine (kv : Bytes × Bytes) : Bytes := kv.1 ++ [58, 32] ++ kv.2 ++ [13, 10]
+
+/-- the ordinary header lines of `RequestHeader.AppendBytes` (the `h.h` loop), in order -/
+def writeHeaderLines (ps : List (Bytes × Bytes)) : Bytes := (ps.map writeHeaderLine).flatten
+
+def isBlank (c : Nat) : Bool := c == 32 || c == 9
+
+/-- split at the first occurrence of `c` (`bytes.IndexByte`): the part before and the part after -/
+def cutAt (c : Nat) : Bytes → Option (Bytes × Bytes)
+  | [] => none
+  | x :: xs => if x == c then some ([], xs) else (cutAt c xs).map fun r => (x :: r.1, r.2)
+
+def dropRightWhile (p : Nat → Bool) (s : Bytes) : Bytes := (s.reverse.dropWhile p).reverse
+
+def containsCRLF : Bytes → Bool
+  | [] => false
+  | [_] => false
+  | x :: y :: r => (x == 13 && y == 10) || containsCRLF (y :: r)
+
+def startsBlank (s : Bytes) : Bool :=
+  match s.head? with
+  | some d => isBlank d
+  | none => false
+
+inductive HdrStep where
+  | done (rest : Bytes)                    -- the blank line that ends the header block
+  | line (key value rest : Bytes)
+  | bad                                    -- `errNeedMore` / `errInvalidName`
+  | folded                                 -- the next line starts with SP / HTAB (obs-fold): not modelled
+  deriving Repr, DecidableEq
+
+/-- one `headerScanner.next`: the line up to the first LF; the key is what stands before its first ':'
+    (a LF before the ':' or no ':' is an error); the value is the rest with leading SP / HTAB skipped,
+    one trailing CR and then trailing SP / HTAB removed; when a CRLF follows in the buffer
+    `normalizeHeaderValue` runs, which on a LF-free value deletes every CR. -/
+def headerNext (bs : Bytes) : HdrStep :=
+  match bs with
+  | [] => .bad
+  | c :: cs =>
+    if c == 10 then .done cs
+    else if c == 13 && cs.head? == some 10 then .done (cs.drop 1)
+    else match cutAt 10 bs with
+      | none => .bad
+      | some (line, rest) =>
+        match cutAt 58 line with
+        | none => .bad
+        | some (key, v0) =>
+          if startsBlank rest then .folded
+          else
+            let v1 := v0.dropWhile isBlank
+            let v2 := if v1.getLast? == some 13 then v1.dropLast else v1
+            let v3 := dropRightWhile isBlank v2
+            .line key (if containsCRLF rest then v3.filter (· != 13) else v3) rest
+
+/-- `validHeaderFieldByteTable` (RFC 9110 tchar) -/
+def tokenByte (c : Nat) : Bool :=
+  isAlpha c || isDigit c || c == 33 || (35 ≤ c && c ≤ 39) || c == 42 || c == 43 || c == 45 || c == 46 ||
+  c == 94 || c == 95 || c == 96 || c == 124 || c == 126
+
+/-- `validHeaderValueByteTable`: HTAB, SP, VCHAR, obs-text -/
+def headerValueByte (c : Nat) : Bool := c == 9 || (32 ≤ c && c ≤ 126) || (128 ≤ c && c ≤ 255)
+
+inductive HdrParse where
+  | ok (pairs : List (Bytes × Bytes)) (rest : Bytes)
+  | bad                                    -- the server answers 400 before any handler runs
+  | unsupported
+  deriving Repr, DecidableEq
+
+/-- the loop of `RequestHeader.parseHeaders` over ordinary header lines: an empty key, a key byte
+    that is neither a token byte nor ' ', or a value byte outside `validHeaderValueByte` rejects the
+    request; a key with a ' ' is not canonicalised. (`fuel`: one per line.) -/
+def parseHeaderLines : Nat → Bytes → HdrParse
+  | 0, _ => .bad
+  | fuel + 1, bs =>
+    match headerNext bs with
+    | .done rest => .ok [] rest
+    | .bad => .bad
+    | .folded => .unsupported
+    | .line k v rest =>
+      if k.isEmpty || k.any (fun c => !tokenByte c && c != 32) || !v.all headerValueByte then .bad
+      else match parseHeaderLines fuel rest with
+        | .ok ps r => .ok ((if k.contains 32 then k else normalizeHeaderKey k, v) :: ps) r
+        | e => e
+
+/-- what the server's header table holds for the lines the client wrote, followed by the blank line -/
+def headerTransport (ps : List (Bytes × Bytes)) : HdrParse :=
+  let w := writeHeaderLines ps ++ [13, 10]
+  parseHeaderLines (w.length + 1) w
+
+/-! ### multipart bodies (client/hooks.go `parserRequestBodyFile` over mime/multipart `Writer`;
+    mime/multipart `Reader` as far as it reads what that writer wrote) -/
+
+/-- split at the first occurrence of the byte string `pat`: the part before and the part after -/
+def cutAtPat (pat : Bytes) : Bytes → Option (Bytes × Bytes)
+  | [] => if pat.isEmpty then some ([], []) else none
+  | c :: cs =>
+    if pat.isPrefixOf (c :: cs) then some ([], (c :: cs).drop pat.length)
+    else (cutAtPat pat cs).map fun r => (c :: r.1, r.2)
+
+/-- the delimiter line between parts, without the leading CRLF: `--` + boundary -/
+def dashBoundary (bd : Bytes) : Bytes := [45, 45] ++ bd
+
+def cdPrefix : Bytes := b "Content-Disposition: form-data; name=\""
+
+/-- `Writer.CreateFormField`: the header lines of a value part (`escapeQuotes` is the identity on
+    names without `"` and `\`, which is all the model allows) -/
+def fieldHeader (name : Bytes) : List Bytes := [cdPrefix ++ name ++ [34]]
+
+/-- `Writer.CreateFormFile` (header keys are written sorted: Content-Disposition, Content-Type) -/
+def fileHeader (field filename : Bytes) : List Bytes :=
+  [cdPrefix ++ field ++ b "\"; filename=\"" ++ filename ++ [34], b "Content-Type: application/octet-stream"]
+
+/-- one part as it stands in the body: delimiter line, header lines, blank line, content, CRLF -/
+def writePart (bd : Bytes) (header : List Bytes) (content : Bytes) : Bytes :=
+  dashBoundary bd ++ [13, 10] ++ (header.map (· ++ [13, 10])).flatten ++ [13, 10] ++ content ++ [13, 10]
+
+/-- `parserRequestBodyFile`: one `WriteField` per form argument in the order they were added, then
+    the files, then `Close` (`--boundary--`). -/
+def writeMultipart (bd : Bytes) (fields : List (Bytes × Bytes)) (files : List (Bytes × Bytes × Bytes)) : Bytes :=
+  (fields.map fun kv => writePart bd (fieldHeader kv.1) kv.2).flatten ++
+  (files.map fun f => writePart bd (fileHeader f.1 f.2.1) f.2.2).flatten ++
+  dashBoundary bd ++ [45, 45, 13, 10]
+
+/-- the header lines of a part, up to the blank line (`textproto.Reader.ReadMIMEHeader`, lines
+    without folding) -/
+def readHeaderLines : Nat → Bytes → Option (List Bytes × Bytes)
+  | 0, _ => none
+  | fuel + 1, s =>
+    match cutAtPat [13, 10] s with
+    | none => none
+    | some (line, rest) =>
+      if line.isEmpty then some ([], rest)
+      else (readHeaderLines fuel rest).map fun r => (line :: r.1, r.2)
+
+/-- name and file flag from the Content-Disposition line as the writer spells it:
+    `form-data; name="…"` optionally followed by `; filename="…"` -/
+def partName (lines : List Bytes) : Option (Bytes × Bool) :=
+  match lines with
+  | [] => none
+  | l :: _ =>
+    if cdPrefix.isPrefixOf l then
+      (cutAt 34 (l.drop cdPrefix.length)).map fun r => (r.1, (b "; filename=\"").isPrefixOf r.2)
+    else none
+
+/-- mime/multipart `Reader.NextPart` / `ReadForm` on the bytes that follow a `--boundary`: `--` ends
+    the body, CRLF starts a part: header lines up to the blank line, content up to the next
+    `CRLF--boundary`. `none` = malformed for this reader model (anything else after a delimiter).
+    Yields `(name, content, isFile)` per part, in order. -/
+def readParts (bd : Bytes) : Nat → Bytes → Option (List (Bytes × Bytes × Bool))
+  | 0, _ => none
+  | fuel + 1, s =>
+    if ([45, 45] : Bytes).isPrefixOf s then some []
+    else if ([13, 10] : Bytes).isPrefixOf s then
+      match readHeaderLines (s.length + 1) (s.drop 2) with
+      | none => none
+      | some (lines, rest) =>
+        match cutAtPat ([13, 10] ++ dashBoundary bd) rest with
+        | none => none
+        | some (content, after) =>
+          match partName lines, readParts bd fuel after with
+          | some nf, some ps => some ((nf.1, content, nf.2) :: ps)
+          | _, _ => none
+    else none
+
+/-- the `Value` pairs `Request.MultipartForm()` finds in a body (file parts are not values) -/
+def readMultipart (bd body : Bytes) : Option (List (Bytes × Bytes)) :=
+  if (dashBoundary bd).isPrefixOf body then
+    (readParts bd (body.length + 1) (body.drop (dashBoundary bd).length)).map fun ps =>
+      (ps.filter fun p => !p.2.2).map fun p => (p.1, p.2.1)
+  else none
+
 /-- `SetValWithStruct` into the `Cookie` map: `Add` assigns, so the last element of a slice wins
     and an empty slice leaves nothing. -/
 def cookiePairs (st : Struct) : List (Bytes × Bytes) :=
